@@ -120,9 +120,11 @@ impl ValueVector {
         if self.validity.is_none() {
             self.validity = Some(vec![true; self.len]);
         }
-        if let Some(validity) = &mut self.validity
-            && index < validity.len()
-        {
+        if let Some(validity) = &mut self.validity {
+            // values pushed after the validity mask was created are valid until marked otherwise
+            if index >= validity.len() {
+                validity.resize(index + 1, true);
+            }
             validity[index] = false;
         }
     }
